@@ -182,3 +182,33 @@ package tree
 //@ func (*RootEntry).Validate
 //@   trusted goroutine + channel collection; the result holds one non-nil record per intent and only non-nil errors
 //@   ensures vrOK(result)
+
+// ---------------------------------------------------------------------------
+// C08: at most one case of a choice is configured — the resolver picks the case holding the best (lowest) priority value
+
+//@ pred caseOK(c) = c != nil && c.elements != nil && allstr(k, present(c.elements, k) ==> c.elements[k] != nil)
+//@ pred resolverOK(c) = c != nil && c.cases != nil && !present(c.cases, "") && allstr(k, present(c.cases, k) ==> caseOK(c.cases[k]))
+
+//@ func (*choicesCase).GetLowestPriorityValue
+//@   props C08
+//@   pure
+//@   requires caseOK(c)
+//@   modifies nothing
+//@   ensures lower_bound: result <= 2147483647 && allstr(k, present(c.elements, k) ==> result <= c.elements[k].value)
+//@   ensures attained: result == 2147483647 || exstr(k, present(c.elements, k) && c.elements[k].value == result)
+//@   loop 0 invariant $map == c.elements
+//@   loop 0 invariant result <= 2147483647 && allstr(k, $visited[k] ==> result <= c.elements[k].value)
+//@   loop 0 invariant result == 2147483647 || exstr(k, $visited[k] && present(c.elements, k) && c.elements[k].value == result)
+
+//@ func (*choiceCasesResolver).getBestCaseName
+//@   props C08
+//@   requires resolverOK(c)
+//@   modifies nothing
+//@   ensures none_when_nothing_populated: allstr(k, present(c.cases, k) ==> c.cases[k].GetLowestPriorityValue() == 2147483647) ==> result == ""
+//@   ensures some_when_populated: exstr(k, present(c.cases, k) && c.cases[k].GetLowestPriorityValue() < 2147483647) ==> result != ""
+//@   ensures best_case_wins: result != "" ==> present(c.cases, result) && c.cases[result].GetLowestPriorityValue() < 2147483647 &&
+//@            allstr(k, present(c.cases, k) ==> c.cases[result].GetLowestPriorityValue() <= c.cases[k].GetLowestPriorityValue())
+//@   loop 0 invariant $map == c.cases
+//@   loop 0 invariant allstr(k, $visited[k] ==> present(c.cases, k) && bestCasePrio <= c.cases[k].GetLowestPriorityValue())
+//@   loop 0 invariant bestCaseName == "" ==> bestCasePrio == 2147483647
+//@   loop 0 invariant bestCaseName != "" ==> present(c.cases, bestCaseName) && c.cases[bestCaseName].GetLowestPriorityValue() == bestCasePrio && bestCasePrio < 2147483647
